@@ -174,7 +174,7 @@ func New(n int, rng *kit.Rng, replay []int, maxSteps int) *Sched {
 	s.done = make([]bool, n)
 	s.started = make([]bool, n)
 	s.waitMu = make([]*sync.Mutex, n)
-	s.Choices = make([]int, maxSteps+n+8)
+	s.Choices = make([]int, 0, 2048)
 	s.prio = make([]int, n)
 	s.rtBlocked = make([]bool, n)
 	s.abandoned = make([]bool, n)
@@ -280,8 +280,10 @@ func (s *Sched) pick(me int) int {
 	if meEnabled && next != me {
 		s.Preempts++
 	}
-	if s.nch < len(s.Choices) {
-		s.Choices[s.nch] = next
+	if s.nch < 1<<17 { // choices beyond this are not recorded (a replay then falls back to "stay")
+		// (append in a norace function: growslice only annotates a READ of
+		// the old array, which no instrumented code ever wrote)
+		s.Choices = append(s.Choices, next)
 		s.nch++
 	}
 	return next
@@ -290,7 +292,11 @@ func (s *Sched) pick(me int) int {
 // EnableLog preallocates the event log (replay mode).
 func (s *Sched) EnableLog() {
 	s.Record = true
-	s.rawLog = make([]int, 4*(s.MaxSteps+s.n+8))
+	n := s.MaxSteps + s.n + 8
+	if n > 1<<17 {
+		n = 1 << 17
+	}
+	s.rawLog = make([]int, 4*n)
 }
 
 // Log formats the recorded decisions (call after Run).
